@@ -211,6 +211,10 @@ class EZSP:
                 results.append(response)
             elif frame_name == completion_frame:
                 fut.set_result(response)
+            elif frame_name == "_reset_controller_application" and not fut.done():
+                # The NCP has failed or the connection is gone: the completion frame
+                # will never arrive, do not leave the caller waiting for it forever
+                fut.set_exception(EzspError(f"NCP failure during {name}: {response}"))
 
         cbid = self.add_callback(cb)
         try:
